@@ -1358,3 +1358,226 @@ func (f *Factory) rebuild(t *Term, args []*Term) *Term {
 	}
 	panic("rebuild: unknown op")
 }
+
+// SimplifyUnder rewrites goal using the literals of the assumption (and of the goal's own implication
+// antecedents): ite(c, a, b) becomes a when c is assumed and b when not c is assumed. Rebuilding goes through
+// the normalising constructors, so polynomial identities that only differ by a resolved ite fold to true.
+func (f *Factory) SimplifyUnder(assume *Term, goal *Term) *Term {
+	lits := map[*Term]bool{}
+	var addLits func(t *Term)
+	addLits = func(t *Term) {
+		if t.Op == OAnd {
+			for _, a := range t.Args {
+				addLits(a)
+			}
+			return
+		}
+		lits[t] = true
+	}
+	addLits(assume)
+	var rec func(g *Term, extra map[*Term]bool) *Term
+	rec = func(g *Term, extra map[*Term]bool) *Term {
+		if g.Op == OImp {
+			// antecedent literals are available in the consequent
+			ne := map[*Term]bool{}
+			for k := range extra {
+				ne[k] = true
+			}
+			ante := f.resolveItes(g.Args[0], lits, extra)
+			var al func(t *Term)
+			al = func(t *Term) {
+				if t.Op == OAnd {
+					for _, a := range t.Args {
+						al(a)
+					}
+					return
+				}
+				ne[t] = true
+			}
+			al(ante)
+			return f.Imp(ante, rec(g.Args[1], ne))
+		}
+		if g.Op == OAnd {
+			args := make([]*Term, len(g.Args))
+			for i, a := range g.Args {
+				args[i] = rec(a, extra)
+			}
+			return f.And(args...)
+		}
+		return f.resolveItes(g, lits, extra)
+	}
+	return rec(goal, map[*Term]bool{})
+}
+
+func (f *Factory) resolveItes(t *Term, l1, l2 map[*Term]bool) *Term {
+	known := func(c *Term) (bool, bool) {
+		if l1[c] || l2[c] {
+			return true, true
+		}
+		n := f.Not(c)
+		if l1[n] || l2[n] {
+			return false, true
+		}
+		return false, false
+	}
+	cache := map[*Term]*Term{}
+	var rec func(t *Term) *Term
+	rec = func(t *Term) *Term {
+		if len(t.Args) == 0 {
+			return t
+		}
+		if r, ok := cache[t]; ok {
+			return r
+		}
+		var r *Term
+		if t.Op == OIte {
+			if val, ok := known(t.Args[0]); ok {
+				if val {
+					r = rec(t.Args[1])
+				} else {
+					r = rec(t.Args[2])
+				}
+				cache[t] = r
+				return r
+			}
+		}
+		if t.S == SBool && t.Op != OForall && t.Op != OExists {
+			if val, ok := known(t); ok && (t.Op == OApp || t.Op == OEq || t.Op == OLt || t.Op == OLe) {
+				r = f.Bool(val)
+				cache[t] = r
+				return r
+			}
+		}
+		if t.Op == OForall || t.Op == OExists {
+			cache[t] = t
+			return t
+		}
+		args := make([]*Term, len(t.Args))
+		ch := false
+		for i, a := range t.Args {
+			args[i] = rec(a)
+			if args[i] != a {
+				ch = true
+			}
+		}
+		if ch {
+			r = f.rebuild(t, args)
+		} else {
+			r = t
+		}
+		cache[t] = r
+		return r
+	}
+	return rec(t)
+}
+
+// CaseSplit proves goal under assume by splitting on the conditions of the ite terms that remain after
+// SimplifyUnder (at most maxDepth nested splits): a case whose literals contradict the assumption is vacuous.
+// It returns the (possibly partially) simplified goal; `true` when every consistent case folds to true.
+func (f *Factory) CaseSplit(assume, goal *Term, maxDepth int) *Term {
+	var lits []*Term
+	var rec func(g *Term, depth int) *Term
+	rec = func(g *Term, depth int) *Term {
+		// the current case: assume + lits
+		a := f.And(append([]*Term{assume}, lits...)...)
+		// vacuous case?
+		if f.boolUnder(assume, lits).IsFalse() {
+			return f.True()
+		}
+		g2 := f.SimplifyUnder(a, g)
+		if g2.IsTrue() || depth >= maxDepth {
+			return g2
+		}
+		c := firstIteCond(g2)
+		if c == nil {
+			return g2
+		}
+		lits = append(lits, c)
+		t := rec(g2, depth+1)
+		lits[len(lits)-1] = f.Not(c)
+		e := rec(g2, depth+1)
+		lits = lits[:len(lits)-1]
+		if t.IsTrue() && e.IsTrue() {
+			return f.True()
+		}
+		return f.And(f.Imp(c, t), f.Imp(f.Not(c), e))
+	}
+	return rec(goal, 0)
+}
+
+// boolUnder evaluates a Boolean term given a set of literals assumed true (three-valued: returns the term
+// itself when undetermined).
+func (f *Factory) boolUnder(t *Term, lits []*Term) *Term {
+	set := map[*Term]bool{}
+	for _, l := range lits {
+		set[l] = true
+	}
+	var rec func(t *Term) *Term
+	rec = func(t *Term) *Term {
+		if set[t] {
+			return f.True()
+		}
+		if set[f.Not(t)] {
+			return f.False()
+		}
+		switch t.Op {
+		case OAnd:
+			args := make([]*Term, len(t.Args))
+			for i, a := range t.Args {
+				args[i] = rec(a)
+			}
+			return f.And(args...)
+		case OOr:
+			args := make([]*Term, len(t.Args))
+			for i, a := range t.Args {
+				args[i] = rec(a)
+			}
+			return f.Or(args...)
+		case ONot:
+			return f.Not(rec(t.Args[0]))
+		case OImp:
+			return f.Imp(rec(t.Args[0]), rec(t.Args[1]))
+		}
+		return t
+	}
+	return rec(t)
+}
+
+func firstIteCond(t *Term) *Term {
+	seen := map[*Term]bool{}
+	var found *Term
+	var rec func(t *Term)
+	rec = func(t *Term) {
+		if found != nil || seen[t] {
+			return
+		}
+		seen[t] = true
+		if t.Op == OIte {
+			c := t.Args[0]
+			// split on an atom of the condition
+			for c.Op == ONot || c.Op == OAnd || c.Op == OOr {
+				c = c.Args[0]
+			}
+			found = c
+			return
+		}
+		if t.Op == OForall || t.Op == OExists {
+			return
+		}
+		for _, a := range t.Args {
+			rec(a)
+		}
+	}
+	rec(t)
+	return found
+}
+
+// caseSplitGoal: for goals of the form A ==> B, split inside B with A's literals assumed.
+func (f *Factory) caseSplitGoal(pc, goal *Term) *Term {
+	if goal.Op == OImp {
+		a := f.And(pc, goal.Args[0])
+		r := f.CaseSplit(a, goal.Args[1], 6)
+		return f.Imp(goal.Args[0], r)
+	}
+	return f.CaseSplit(pc, goal, 6)
+}
